@@ -48,7 +48,7 @@ FLOAT_SEEDS = ['1.5', '1.', '.5', '1e5', '1E5', '1.5e5', '1.e5', '.5e-3',
                '.inf', '.Inf', '.INF', '-.inf', '+.INF', '.nan', '.NaN',
                '.NAN', '1_000.5', '1:30.5', '190:20:30.15', '1.5e', '1e',
                '0x1.8p3', '1,5', 'inf', 'nan', 'NaN', 'Infinity', '1e5.5',
-               '६.५', '１.５', '1.5٠']
+               '\u096c.\u096b', '\uff11.\uff15', '1.5\u0660']
 
 
 def requirements(tier):
@@ -283,7 +283,7 @@ def near_misses(depth2_sample, rng):
     # splices: valid+suffix, prefix+valid
     valid = [w for w in seeds if S.is_float12(w) or S.is_bool12(w)]
     junk = ['a', 'x', '.', '.3', 'e', '_', ':1', ' ', '0', 'ish', 'y', '-',
-            '+', '1', 'E5', '.inf', 'true', 'False', ' ', '\t']
+            '+', '1', 'E5', '.inf', 'true', 'False', '\u00a0', '\t']
     for w in valid:
         for j in junk:
             near.add(w + j)
